@@ -192,7 +192,7 @@ CONFIG.props_module = "KsiVerif.Props.C13"
 CONFIG.required_theorems = ["no_request_returned_twice", "returned_fresh", "reply_matched_by_full_id", "foreign_reply_ignored",
                              "add_cache_full", "add_accepts_into_free_slot", "recv_timeout_only_when_elapsed",
                              "response_processing_keeps_cache", "completes_only_with_status_zero", "error_status_fails_its_own_request", "J_add", "J_run", "J_grow", "grow_keeps_slots", "never_lost", "conserved", "counters_correct",
-                             "accepted_creates_one"]
+                             "accepted_creates_one", "sndTime_is_the_send_time"]
 def gen_h(rng, tier):
     """the HTTP client's write callback: a reply delivered in 1..6 pieces of sizes around the buffer's growth step (255)"""
     for _ in range(150 if tier != "thorough" else 3000):
